@@ -101,6 +101,17 @@ fn gen_cmd(rng: &mut Rng, m: &Model, cx: &Ctx, force: Option<u64>) -> Cmd {
             })
             .collect::<Vec<_>>())
     };
+    if let Some(code @ 105..=107) = force {
+        return match code {
+            105 => Cmd { text: "pause".into(), name: "pause".into(), kind: "pause-resume", malformed: false },
+            107 => Cmd { text: "resume".into(), name: "resume".into(), kind: "pause-resume", malformed: false },
+            _ => {
+                let w0 = rng.below(50);
+                let w1 = w0 + rng.below(100);
+                Cmd { text: format!("query {}", json!({"window":[w0, w1], "filters": filters(rng), "binary": rng.chance(3, 4)})), name: "query".into(), kind: "stream", malformed: false }
+            }
+        };
+    }
     if let Some(code @ 101..=104) = force {
         // well-formed id commands on a live id (scripted prefixes)
         let live: Vec<u32> = m.streams.iter().chain(m.queries.iter()).copied().collect();
@@ -289,6 +300,19 @@ fn session(rng: &mut Rng, srv: &mut Server, cx: &Ctx, rep: &mut Report, history:
             script.push_back(if rng.chance(2, 3) { 101 + rng.below(4) } else { 10 + rng.below(8) });
         }
         rep.inc("sessions_with_commands_during_archive_extraction");
+    }
+    // 1/8: several queries (and a stream) created while the pipeline is paused end in the same server round after resume
+    if script.is_empty() && rng.chance(1, 8) {
+        script.push_back(if rng.chance(1, 2) { 0 } else { 100 });
+        script.push_back(105); // pause
+        for _ in 0..2 + rng.usize_below(3) {
+            script.push_back(if rng.chance(3, 4) { 106 } else { 6 }); // query (or stream/query)
+        }
+        script.push_back(107); // resume
+        for _ in 0..1 + rng.usize_below(3) {
+            script.push_back(if rng.chance(2, 3) { 101 + rng.below(4) } else { 10 + rng.below(8) });
+        }
+        rep.inc("sessions_with_queries_created_while_paused");
     }
     for _ in 0..n {
         let c = gen_cmd(rng, &m, cx, script.pop_front());
